@@ -63,16 +63,24 @@ struct HHash { typedef HashMap<int, Tracked> H; static H make() { H m; for (int 
 struct HHashBig { typedef HashMap<int, Tracked> H; static H make() { H m; for (int i = 0; i < 300; i++) m[i * 7] = Tracked(i); return m; }   // grown past the 225-entry rehash threshold before it is shared
 	static bool read(const H& h) { const Tracked* p = h.find(299 * 7); const Tracked* q = h.find(7); return h.length() == 300 && p && p->ok() && q && q->ok(); } static const char* name() { return "HashMap<int,Tracked> after growth"; } };
 struct HShared { typedef Shared<Tracked> H; static H make() { return H(new Tracked(9)); } static bool read(const H& h) { return h->ok() && h->v == 9; } static const char* name() { return "Shared<Tracked>"; } };
+struct HSharedA { typedef Shared<Tracked> H; static H make() { H h; h = new Tracked(9); return h; } static bool read(const H& h) { return h->ok() && h->v == 9; } static const char* name() { return "Shared<Tracked> filled by assigning a pointer"; } };
+struct HArrBig { typedef Array<Tracked> H; static H make() { H a; for (int i = 0; i < 3000; i++) a << Tracked(i % 100); return a; } static bool read(const H& h) { return h.length() == 3000 && h[0].ok() && h[2999].ok(); } static const char* name() { return "Array<Tracked> of 3000 elements"; } };
 struct HSmart { typedef Thing H; static H make() { return Thing(); } static bool read(const H& h) { return h.ok(); } static const char* name() { return "SmartObject class"; } };
 
-enum Op { OP_COPY, OP_ASSIGN, OP_DROP, OP_READ, OP_REACQUIRE, OP_RESET, OP_CLONE, NOPS };
-static const char* OPN[] = {"copy", "assign", "drop", "read", "reacquire", "reset-by-assigning-an-empty-handle", "clone-and-drop"};
+enum Op { OP_COPY, OP_ASSIGN, OP_DROP, OP_READ, OP_REACQUIRE, OP_RESET, OP_CLONE, OP_DUP, NOPS };
+static const char* OPN[] = {"copy", "assign", "drop", "read", "reacquire", "reset-by-assigning-an-empty-handle", "clone-and-drop", "dup"};
 
 // the empty / null handle of each kind (a default-constructed smart class is a new object, its null handle is built from a null pointer)
 template<class K> struct EmptyOf { static typename K::H get() { return typename K::H(); } };
 template<> struct EmptyOf<HSmart> { static Thing get() { return Thing((SmartObject_*)0); } };
 // an independent deep copy held by one handle (Shared<T> has no clone(): a second object is made from the first's value)
 template<class K> struct CloneOf { static typename K::H get(const typename K::H& h) { return h.clone(); } };
+template<> struct CloneOf<HSharedA> { static Shared<Tracked> get(const Shared<Tracked>& h) { return Shared<Tracked>(new Tracked(*h)); } };
+// dup(): the handle gets a private copy of the shared storage (containers only)
+template<class K> struct DupOf { static void apply(typename K::H& h) { h.dup(); } };
+template<> struct DupOf<HShared> { static void apply(Shared<Tracked>&) {} };
+template<> struct DupOf<HSharedA> { static void apply(Shared<Tracked>&) {} };
+template<> struct DupOf<HSmart> { static void apply(Thing&) {} };
 template<> struct CloneOf<HShared> { static Shared<Tracked> get(const Shared<Tracked>& h) { return Shared<Tracked>(new Tracked(*h)); } };
 
 // a thread's program over its own handles (it always keeps its seed handle until the end)
@@ -88,7 +96,7 @@ static void runProgram(const typename K::H& seedHandle, const std::vector<int>& 
 		// clone() is not one of the operations the property lists (copy, assign, drop); it is exercised for the
 		// "destroyed exactly once" clause in the ASan / plain builds only: its check-then-act read of the count
 		// (a plain load of a volatile int in dup()) is a formal race for TSan - see DESIGN.md, observations
-		if (op == OP_CLONE) op = OP_COPY;
+		if (op == OP_CLONE || op == OP_DUP) op = OP_COPY;
 #endif
 		switch (op) {
 		case OP_COPY: own.push_back(new H(*own[arg % own.size()])); break;
@@ -97,6 +105,7 @@ static void runProgram(const typename K::H& seedHandle, const std::vector<int>& 
 		case OP_READ: if (!K::read(*own[arg % own.size()])) (*badRead)++; break;
 		case OP_REACQUIRE: if (own.size() > 1) { delete own.back(); own.back() = new H(seedHandle); } break;
 		case OP_RESET: if (own.size() > 1) { *own.back() = EmptyOf<K>::get(); delete own.back(); own.pop_back(); } break;
+		case OP_DUP: if (own.size() > 1) { DupOf<K>::apply(*own.back()); if (!K::read(*own.back())) (*badRead)++; } break;   // never the seed handle: the others keep sharing
 		case OP_CLONE: { H cl = CloneOf<K>::get(*own[arg % own.size()]); if (!K::read(cl)) (*badRead)++; break; }   // the clone's only handle goes away here
 		}
 	}
@@ -174,7 +183,9 @@ static void serialCase(vf::Ctx& c)
 
 static void mode_serial(vf::Ctx& c)
 {
-	switch (c.idx % 8) {
+	switch (c.idx % 10) {
+	case 8: serialCase<HSharedA>(c); break;
+	case 9: serialCase<HArrBig>(c); break;
 	case 7: serialCase<HHashBig>(c); break;
 	case 0: serialCase<HArrT>(c); break;
 	case 1: serialCase<HArrS>(c); break;
@@ -193,6 +204,7 @@ static void stressCase(vf::Ctx& c)
 	typedef typename K::H H;
 	int nth = (int)c.opt->param("threads", 16);
 	long nops = c.opt->param("ops", 20000);
+	if (sizeof(typename K::H) && (std::string(K::name()).find("3000") != std::string::npos || std::string(K::name()).find("grown") != std::string::npos)) nops /= 40;   // clones of the big kinds cost thousands of element copies
 	uint64_t seed = c.rng.next();
 	int jmode = c.rng.below(3);
 	if (jmode == 1) sched::jitter(seed, 0.002, 30);
@@ -231,9 +243,55 @@ static void stressCase(vf::Ctx& c)
 	if (c.want_sample()) c.sample(c.curdesc());
 }
 
+// dup() on one handle while the only other handle to the same storage is dropped by another thread: the copy must be
+// taken before the handle lets go of the shared storage (real threads, the dropper starts after a swept delay)
+template<class K>
+static void dupRaceCase(vf::Ctx& c)
+{
+	typedef typename K::H H;
+	int rounds = (int)c.opt->param("rounds", 150);
+	c.desc(vf::fmt("%s: dup() in one thread while the last other handle is dropped in another, %d rounds with swept start delays", K::name(), rounds));
+	reset_tracking();
+	std::atomic<int> badRead(0);
+	for (int k = 0; k < rounds; k++) {
+		H* a = new H(K::make());
+		H* b = new H(*a);
+		std::atomic<int> go(0);
+		int spin = (k % 50) * (int)c.opt->param("spin", 40);
+		std::thread t1([&]() { while (!go.load()) {} DupOf<K>::apply(*a); if (!K::read(*a)) badRead++; });
+		std::thread t2([&]() { while (!go.load()) {} for (volatile int i = 0; i < spin; i++) {} delete b; });
+		go = 1;
+		t1.join();
+		t2.join();
+		if (!K::read(*a)) badRead++;
+		delete a;
+	}
+	if (badRead) c.fail("duprace.read-through-live-handle-failed", vf::fmt("%d bad reads", (int)badRead));
+	if (g_err) c.fail(std::string("duprace.") + (const char*)g_err, "");
+	if (g_ctor != g_dtor) c.fail("duprace.payload-not-destroyed-exactly-once", vf::fmt("constructed %ld destroyed %ld", (long)g_ctor, (long)g_dtor));
+	c.evals(rounds);
+	c.distinct(vf::mix(c.idx, vf::fnv(K::name())));
+	if (c.want_sample()) c.sample(c.curdesc());
+}
+
+static void mode_dup_race(vf::Ctx& c)
+{
+	switch (c.idx % 7) {
+	case 0: dupRaceCase<HArrT>(c); break;
+	case 1: dupRaceCase<HArrS>(c); break;
+	case 2: dupRaceCase<HMap>(c); break;
+	case 3: dupRaceCase<HDic>(c); break;
+	case 4: dupRaceCase<HHash>(c); break;
+	case 5: dupRaceCase<HHashBig>(c); break;
+	default: dupRaceCase<HArrBig>(c); break;
+	}
+}
+
 static void mode_stress(vf::Ctx& c)
 {
-	switch (c.idx % 8) {
+	switch (c.idx % 10) {
+	case 8: stressCase<HSharedA>(c); break;
+	case 9: stressCase<HArrBig>(c); break;
 	case 7: stressCase<HHashBig>(c); break;
 	case 0: stressCase<HArrT>(c); break;
 	case 1: stressCase<HArrS>(c); break;
@@ -436,6 +494,7 @@ int main(int argc, char** argv)
 	R.add("chain", mode_chain, "cursors walking a shared linked list: cur = cur->next");
 	R.add("serial", mode_serial, "all interleavings of small handle scenarios at the atomic steps");
 	R.add("serial_counters", mode_serial_counters, "all interleavings of AtomicCount ops");
+	R.add("dup_race", mode_dup_race, "dup() racing the drop of the last other handle (containers)");
 	R.add("stress", mode_stress, "high-contention handle traffic");
 	R.add("counters", mode_counters, "AtomicCount / Atomic<T> conservation");
 	return R.main(argc, argv);
